@@ -26,7 +26,7 @@ def is_some_of(v, payload_pred):
 
 
 def analyse_clru(ck, assume=None, tag=''):
-    return ck.analyse(ENC + 'check_label_re_use', {'kslots': 16}, assume=assume, tag=tag)
+    return ck.analyse(clru_key(ck.facts), {'kslots': 16}, assume=assume, tag=tag)
 
 
 def classify(a, c, w, rv):
